@@ -2421,6 +2421,10 @@ class Exec:
                 VALID = z3.Function('VALID[%s]' % enc, BYTES, z3.BoolSort())
                 xs = self.seq(b, st)
                 st.facts.append(VALID(z3.Empty(BYTES)))
+                if enc.lower().replace('_', '-') in ('utf-8', 'utf8', 'ascii', 'us-ascii'):
+                    # a str that is not a sequence of code points is represented by its UTF-8 octets: decoding valid octets yields the
+                    # str whose UTF-8 octets they are
+                    st.facts.append(z3.Implies(VALID(xs), F(xs) == xs))
                 res = []
                 for s2, ok in self.fork(st, VALID(xs)):
                     res.append((s2, VStr(z=F(xs)) if ok else Raise('UnicodeDecodeError', getattr(n, 'lineno', None))))
